@@ -123,6 +123,15 @@ def _run(prop, tier, replay, text, quick_frac):
         # file order for the value-against-type cases (cross-namespace example references, imported annotations, doc
         # references into imported namespaces, route attribute schemas): every StoneLitMC case in both file orders
         lit_stage(rep, 'C11', ('exlit', 'attr', 'annot', 'anndef', 'badtype') if tier == 'quick' else ('exlit', 'attr', 'annot', 'anndef', 'badtype', 'docref'))
+        # computed examples (references between examples of different types, subtype trees, unions) in both definition
+        # orders and both file orders
+        res = run_shards('StoneDefaultsMC',
+                         lambda s: dict(spec='Spec', constants={'Mode': '"examples"', 'Shard': 0, 'NShards': 1, 'EmitVectors': True},
+                                        invariants=['ExamplesValid'], constraints=['Emit']),
+                         [0], 'defcheck.ExampleOrderJudge', {}, tlc_kwargs={'timeout': 3000})
+        agg = merge(res)
+        rep.add_tlc('StoneDefaultsMC/examples', agg, {'layouts': 'definition order x file order'})
+        rep.add_judged(agg)
         # delivery: the concatenated files on standard input must mean what the files mean (StoneStdin, SplitRestores)
         consts = {'MaxFiles': 2, 'MaxBody': 1} if tier == 'quick' else {'MaxFiles': 2, 'MaxBody': 2}
         res = run_shards('StoneStdin',
